@@ -56,18 +56,34 @@ ASSUMPTIONS = [
 CALL_CASES = ["none", "empty", "bytes"]
 
 
-def replay_roundtrip(inputs, ob):
-    s = inputs.get("state_bytes", b"")
-    c = {"none": None, "empty": b""}.get(inputs.get("call_case"), inputs.get("call_bytes", b""))
-    if not isinstance(s, bytes) or not (c is None or isinstance(c, bytes)):
-        return ReplayResult(False, "model outside the precondition")
+def _roundtrip_once(s, c):
     try:
         blob = cl._encode_resume_token(s, c)
         got = cl._decode_resume_token(blob)
     except Exception as e:  # noqa: BLE001
-        return ReplayResult(True, f"encode/decode of (state={s!r}, call={c!r}) raised {type(e).__name__}: {e}")
+        return f"encode/decode of (state={_short(s)}, call={_short(c)}) raised {type(e).__name__}: {e}"
     want = (s, c or None)
-    return ReplayResult(got != want, f"decode(encode(state={s!r}, call={c!r})) = {got!r}, expected {want!r}")
+    if got != want:
+        return f"decode(encode(state={_short(s)}, call={_short(c)})) = ({_short(got[0])}, {_short(got[1])}), expected ({_short(want[0])}, {_short(want[1])})"
+    return None
+
+
+def _short(b):
+    return repr(b) if b is None or len(b) <= 24 else f"<{len(b)} bytes {b[:8]!r}...>"
+
+
+def replay_roundtrip(inputs, ob):
+    """The model's tokens first; the struct model leaves the byte content of a length prefix uninterpreted across
+    widths, so a handful of canonical lengths around the 1- and 2-byte prefix boundaries are tried as well."""
+    s = inputs.get("state_bytes", b"")
+    c = {"none": None, "empty": b""}.get(inputs.get("call_case"), inputs.get("call_bytes", b""))
+    cands = [(s, c)] if isinstance(s, bytes) and (c is None or isinstance(c, bytes)) else []
+    cands += [(b"s" * n, cc) for n in (0, 1, 255, 256, 65535, 65536, 65537) for cc in (None, b"", b"call-token")]
+    for s_, c_ in cands:
+        bad = _roundtrip_once(s_, c_)
+        if bad:
+            return ReplayResult(True, bad)
+    return ReplayResult(False, f"{len(cands)} round trips (model input + canonical lengths) all returned (s, c or None)")
 
 
 @unit(
@@ -88,6 +104,15 @@ def roundtrip(S):
         return
     blob = enc.value
     S.oblige("O1.blob_is_prefix_plus_both_tokens", blob.length() == 4 + s.length() + (c.length() if isinstance(c, SBytes) else 0), kind="post")
+    # stepping stone (proved, then used): the first four bytes of the blob are the packed cursor length, so the
+    # decoder's unpack reads back len(s) (struct bijection) - keeps the slicing obligations below small
+    from pyvc import models as _models
+
+    S.lemma("O1.L.blob_starts_with_the_packed_cursor_length", SBool(z3.SubString(bytesterm(blob), 0, 4) == _models._LE[4](z3.Length(s.t))))
+    S.lemma("O1.L.unpacking_the_prefix_gives_the_cursor_length", SBool(_models._UNLE[4](z3.SubString(bytesterm(blob), 0, 4)) == z3.Length(s.t)))
+    bt, ls = bytesterm(blob), z3.Length(s.t)
+    S.lemma("O1.L.cursor_token_sits_after_the_prefix", SBool(z3.SubString(bt, 4, ls) == s.t))
+    S.lemma("O1.L.call_token_is_the_rest", SBool(z3.SubString(bt, 4 + ls, z3.Length(bt) - 4 - ls) == (bytesterm(c) if c is not None else z3.StringVal(""))))
     dec = S.outcome(cl._decode_resume_token, blob)
     S.oblige("O1.decode_accepts_every_encoded_blob", dec.returned, kind="raises", witness=(exc_class(dec.exc).__name__ if dec.raised else ""))
     if not dec.returned:
@@ -102,19 +127,38 @@ def roundtrip(S):
     S.canary("O1.canary.cursor_token_is_empty", eq(got_s, b""))
 
 
-def replay_decode(inputs, ob):
-    t = inputs.get("token", b"")
-    if not isinstance(t, bytes):
-        return ReplayResult(False, "model outside the precondition")
+def _decode_once(t):
     try:
         s, c = cl._decode_resume_token(t)
-    except ValueError as e:
-        return ReplayResult(False, f"decode({t!r}) raised ValueError: {e}")
+    except ValueError:
+        return None
     except Exception as e:  # noqa: BLE001
-        return ReplayResult(True, f"_decode_resume_token({t!r}) raised {type(e).__name__}: {e} (only ValueError is allowed)")
-    back = t[:4] + s + (c or b"")
-    ok = isinstance(s, bytes) and (c is None or (isinstance(c, bytes) and c)) and back == t and int.from_bytes(t[:4], "little") == len(s)
-    return ReplayResult(not ok, f"_decode_resume_token({t!r}) = ({s!r}, {c!r}); prefix says {int.from_bytes(t[:4], 'little')} cursor bytes; re-assembled {back!r}")
+        return f"_decode_resume_token({_short(t)}) raised {type(e).__name__}: {e} (only ValueError is allowed)"
+    try:
+        back = cl._encode_resume_token(s, c)
+    except Exception as e:  # noqa: BLE001
+        return f"_decode_resume_token({_short(t)}) = ({_short(s)}, {_short(c)}), which _encode_resume_token refuses: {type(e).__name__}: {e}"
+    if not (isinstance(s, bytes) and (c is None or (isinstance(c, bytes) and c)) and back == t):
+        return f"_decode_resume_token({_short(t)}) = ({_short(s)}, {_short(c)}) but _encode_resume_token of that is {_short(back)}: a malformed blob was accepted"
+    return None
+
+
+def replay_decode(inputs, ob):
+    """The model's blob first, then canonical malformed blobs (short, prefix overrunning by 1.., exact, with tail)."""
+    import struct
+
+    t = inputs.get("token", b"")
+    cands = [t] if isinstance(t, bytes) else []
+    cands += [b"", b"\x00", b"\x00\x00\x00", b"\xff\xff\xff\xff"]
+    for n in (0, 1, 3):
+        for claimed in (n - 1, n, n + 1, n + 2):
+            if claimed >= 0:
+                cands += [struct.pack("<I", claimed) + b"x" * n, struct.pack("<I", claimed) + b"x" * n + b"tail"]
+    for t_ in cands:
+        bad = _decode_once(t_)
+        if bad:
+            return ReplayResult(True, bad)
+    return ReplayResult(False, f"{len(cands)} blobs (model input + canonical malformed blobs): ValueError or a result that re-encodes to the blob")
 
 
 @unit(
@@ -137,6 +181,12 @@ def decode_total(S):
     tail = c if c is not None else b""
     tt = bytesterm(t)
     S.oblige("O2.result_reassembles_the_blob", SBool(z3.Concat(z3.SubString(tt, 0, 4), bytesterm(s), bytesterm(tail)) == tt) if c is not None else SBool(z3.Concat(z3.SubString(tt, 0, 4), bytesterm(s)) == tt), kind="post")
+    # decode is the inverse of encode in the other direction too: what it accepts is exactly what encode produces
+    from pyvc import models as _models
+
+    S.lemma("O2.L.cursor_length_is_the_value_of_the_prefix", SBool(z3.Length(bytesterm(s)) == _models._UNLE[4](z3.SubString(tt, 0, 4))))
+    back = S.outcome(cl._encode_resume_token, s, c)
+    S.oblige("O2.encode_of_the_result_is_the_blob", back.returned and eq(back.value, t), kind="post")
     if c is not None:
         S.oblige("O2.a_returned_call_token_is_not_empty", I(len(c)) > 0 if isinstance(c, bytes) else c.length() > 0, kind="post")
     S.canary("O2.canary.every_blob_has_a_call_token", SBool(z3.BoolVal(c is not None)))
